@@ -16,6 +16,10 @@ import Glom.Generated.C05Facts
                           longer than the limit of its kind, no leaf text longer than its limit) is
                           rendered exactly as Python's `repr` renders it (`refRepr`)
     c05_trace_value_exact … so its trace line is `_format_trace_value` of Python's own repr
+    c05_repr_exact_of_facts / c05_repr_exact_glom   … for every table satisfying `limitsWF` (in particular
+                          the one extracted on this run) and every value below `limitBound`
+    c05_repr_one_line     the model's text of a value has no line break (the hypothesis of
+                          Props/C05Text on spec / target texts), given that of the opaque leaves
     c05_default_limits_elide   with the limits of a plain `reprlib.Repr()` (what a limit falls back to
                           when `__init__` does not raise it) short values are NOT shown: one
                           witness per limit (the nesting witness is C05-s9's `[[[[[[['x']]]]]]]`)
@@ -41,6 +45,34 @@ theorem c05_trace_value_exact (L : Limits) (P : Char → Bool) (v : RV) (h : fit
     formatValue (traceRepr L P v) vlen maxlen = formatValue (refTrace P v) vlen maxlen := by
   unfold traceRepr refTrace
   rw [c05_repr_exact L P v h]
+
+/-- **the facts obligation is what makes glom's traces show values**: for every extracted table
+    that satisfies `limitsWF`, every value whose nesting depth, container lengths and leaf texts
+    stay below `limitBound` (four trace lines of the widest width) is rendered exactly as Python's
+    `repr` renders it. -/
+theorem c05_repr_exact_of_facts (tbl : List (String × Nat)) (fillv : String) (ind : Bool) (ov : List String)
+    (hwf : limitsWF tbl fillv ind ov = true) (P : Char → Bool) (v : RV)
+    (hv : fits (Limits.uniform limitBound) P v = true) :
+    bbrepr (limitsOf tbl) P v = refRepr P v := by
+  simp only [limitsWF, Bool.and_eq_true] at hwf
+  apply c05_repr_exact
+  exact (fits_mono _ _ P (uniform_le_of_allGe _ _ hwf.1.1.1.2) v).1 _ _
+    (uniform_le_of_allGe _ _ hwf.1.1.1.2).1 hv
+
+/-- … in particular for the table extracted from glom on this run -/
+theorem c05_repr_exact_glom (P : Char → Bool) (v : RV) (hv : fits (Limits.uniform limitBound) P v = true) :
+    bbrepr (limitsOf Glom.Generated.bbLimitTable) P v = refRepr P v :=
+  c05_repr_exact_of_facts _ _ _ _ c05_facts_wf P v hv
+
+/-- **the model's text of a value is a single line** — the hypothesis the theorems about the rendered
+    text (Props/C05Text) make on spec and target texts: for every limits record, every printability
+    predicate and every value, `bbrepr(value).replace("\\'", "'")` has no line break, provided the
+    texts the model takes as given (the `repr()` of leaves that are not builtin containers / str /
+    int, the names of builtins, the typecode of an array) have none.  Line breaks inside strings
+    are escaped by `str.__repr__` (`pyStrRepr_OneLine`). -/
+theorem c05_repr_one_line (L : Limits) (P : Char → Bool) (v : RV) (h : leavesOneLine v) :
+    ∀ c, c ∈ traceRepr L P v → c ≠ '\n' :=
+  replQ_OneLine _ ((repr1_OneLine_all L P v h).1 L.maxlevel)
 
 /-! ### the limits matter: under reprlib's defaults short values are not shown -/
 
